@@ -230,15 +230,26 @@ def r3_pass_through(ctx):
     ind = ctx.repo.mod("indent")
     rq = ind.func("Indentation.rate_quality")
     rets = [r for r in walk_no_nested(rq, False) if isinstance(r, ast.Return)]
-    if len(rets) != 1 or not isinstance(rets[0].value, ast.Name):
-        raise Undecided("rate_quality does not return one local")
-    rv = rets[0].value.id
-    defs = [st for st in walk_no_nested(rq, False)
-            if isinstance(st, ast.Assign) and norm(st.targets[0]) == rv]
+    Rrq = Resolver(rq)
+    # every value that can leave rate_quality, with the statement that
+    # decides it (its path conditions)
+    outs = []
+    for r in rets:
+        if isinstance(r.value, ast.Name):
+            vs = Rrq.reaching_values(r.value)
+            if vs is None:
+                raise Undecided("rate_quality returns a local that is not "
+                                "built by plain assignments")
+            for v in vs:
+                st_ = getattr(v, "_parent", None)
+                outs.append((v, st_ if st_ is not None else r))
+        elif r.value is not None:
+            outs.append((r.value, r))
+    if not outs:
+        raise Undecided("rate_quality returns nothing")
     kinds = set()
-    for d in defs:
-        v = d.value
-        t = norm(v)
+    for v, d in outs:
+        t = Rrq.text(v) if hasattr(v, "_parent") else norm(v)
         conds = conditions_at(d)
         if isinstance(v, (ast.Constant, ast.UnaryOp)) and literal(v) == -1:
             ok = any(a.pol and _is_none_regressor(a.node) for a in conds) \
@@ -251,8 +262,8 @@ def r3_pass_through(ctx):
             kinds.add("cached")
             ctx.ok(d, "cached value returned unchanged")
         elif isinstance(v, ast.Subscript) and isinstance(v.value, ast.Call) \
-                and (call_name(v.value) or "").endswith(".rate") and \
-                literal(v.slice) == 0:
+                and isinstance(v.value.func, ast.Attribute) and \
+                v.value.func.attr == "rate" and literal(v.slice) == 0:
             kinds.add("rated")
             kw = {k.arg: norm(k.value) for k in v.value.keywords}
             ctx.check(kw.get("datasets") == "self", d,
